@@ -36,8 +36,9 @@ def render(payloads, layout, tif='none', recno_start=0, fileno=7):
         here = len(out)
         if off == 0:
             starts.append(here)
+        pad = p.get('pad', 0) if tif != 'none' else 0          # null padding after the record ("minimum record size" tapes): TIF files only
         if tif != 'none':
-            out += struct.pack(fmt, 0, prev_marker if n_pr else 0, here + 12 + prlen)
+            out += struct.pack(fmt, 0, prev_marker if n_pr else 0, here + 12 + prlen + pad)
             prev_marker = here
         out += struct.pack('>HH', prlen, attr)
         out += pay[off:off + n]
@@ -48,6 +49,7 @@ def render(payloads, layout, tif='none', recno_start=0, fileno=7):
             out += struct.pack('>H', fileno)
         if p['ck']:
             out += bytes([(n_pr * 29 + 7) & 0xFF, (n_pr * 13 + 99) & 0xFF])      # the checksum value is not verified by the reader: any bytes (by record ordinal, so TIF and plain renderings agree)
+        out += bytes(pad)
         n_pr += 1
         off += n
         if p['last']:
